@@ -211,7 +211,10 @@ def run(prog, chk):
         nz = f.calls_to("cif_normalize")
         okk = bool(v) and bool(nz) and all(const(n["args"][1]) == flag for (b, i, r, n) in v) \
             and all(cfgq.must_precede(f, (b.id, i), [(vb.id, 10 ** 6) for (vb, vi, vr, vn) in v]) for (b, i, r, n) in nz) \
-            and any(path(strip(n.get("e"))) == "invalidityCode" for (b, i, r, n) in f.returns() if n.get("e"))
+            and (any(path(strip(n.get("e"))) == "invalidityCode" for (b, i, r, n) in f.returns() if n.get("e"))
+                 or any(path(strip(a.get("rhs"))) == "invalidityCode"
+                        and path(strip(a.get("lhs"))) in {path(strip(n.get("e"))) for (b2, i2, r2, n) in f.returns() if n.get("e")}
+                        for (b, i, r, a) in f.eval_sites("asg")))
         (r1.ok if okk else lambda k, d: r1.violation(f.file, f.name, f.line, k, "%s does not validate (flag %d) before normalising" % (name, flag)))(
             name + ":validates-first", "cif_is_valid_name(name, %d) dominates cif_normalize; invalid -> invalidityCode" % flag)
 
@@ -354,6 +357,11 @@ def run(prog, chk):
     if validator_domain(prog, r6) < 8:
         raise Broken("fewer than 8 direct normaliser calls found")
 
+    r8 = chk.rule("R8-name-length-limit", "cif_is_valid_name counts characters (code points) and accepts exactly up to the line "
+                  "length for data names, line length - 5 for block / frame codes", primary=False, floor=2)
+    if name_length_limit(prog, r8) < 2:
+        raise Broken("cif_is_valid_name: no length comparison of the name found")
+
     r7 = chk.rule("R7-range-tests-cut-at-class-boundaries", "every relational comparison of a code unit with a constant next to a "
                   "Unicode class boundary (surrogate ranges, the non-characters U+FDD0..FDEF and U+FFFE/F) cuts exactly at the "
                   "boundary: the first and last member of a class are treated like the rest of it", primary=False, floor=8)
@@ -400,5 +408,76 @@ def validator_domain(prog, rule):
                                "cif_normalize_item_name, which demands a leading underscore" % (fn.name, ", ".join(sorted(touched & CODE_TABLES))))
             else:
                 rule.ok(key, "tables: %s" % (", ".join(sorted(touched)) or "(none: in-memory)"))
+    return n
+
+
+def name_length_limit(prog, rule):
+    """cif_is_valid_name: the length test counts characters (code points: u_countChar32) and allows exactly CIF_LINE_LENGTH of
+    them for a data name and CIF_LINE_LENGTH - 5 for a block / frame code (which shares its line with `data_` / `save_`).
+    The comparison found in the function is evaluated for both kinds (for_item = 1 / 0, locals resolved through their single
+    definition): the largest length it lets through must be that limit."""
+    from ..chareval import _ev
+    fn = prog.fn("cif_is_valid_name")
+    line_len = prog.macro_int("CIF_LINE_LENGTH")
+    if line_len is None:
+        raise Broken("CIF_LINE_LENGTH is not defined")
+    flag = next((p_["name"] for p_ in fn.params if p_.get("t", "").strip() == "int"), None)
+    namep = fn.params[0]["name"]
+    defs = {}
+    for (b, i, r, x) in fn.eval_sites("decl"):
+        for v in x.get("vars", []):
+            if v.get("init") is not None:
+                defs[v["name"]] = v["init"]
+    n = 0
+    seen = set()
+    trees = []
+    for b in fn.blocks.values():
+        trees += list(b.roots)
+        if b.term and isinstance(b.term.get("full"), dict):
+            trees.append(b.term["full"])
+    for tr in trees:
+        for x in walk(tr):
+            if x.get("k") != "bin" or x.get("op") not in ("<", "<=", ">", ">=") or x.get("id") in seen:
+                continue
+            sides = {"lhs": strip(x.get("lhs")), "rhs": strip(x.get("rhs"))}
+            meas = None
+            for sd, other in (("lhs", "rhs"), ("rhs", "lhs")):
+                e = sides[sd]
+                if isinstance(e, dict) and e.get("k") == "call" and e.get("callee") in ("u_countChar32", "u_strlen") \
+                        and e.get("args") and path(strip(e["args"][0])) == namep:
+                    meas = (sd, other, e["callee"])
+            if meas is None:
+                continue
+            seen.add(x.get("id"))
+            sd, other, callee = meas
+            op = x["op"] if sd == "lhs" else {"<": ">", ">": "<", "<=": ">=", ">=": "<="}[x["op"]]
+            for item, want, what in ((1, line_len, "data name"), (0, line_len - 5, "block / frame code")):
+                n += 1
+                env = {flag: item} if flag else {}
+
+                def ev(e, depth=0):
+                    v = _ev(e, env, None)
+                    if v is None and depth < 3:
+                        e2 = strip(e)
+                        if isinstance(e2, dict) and e2.get("k") == "ref" and e2.get("name") in defs:
+                            return ev(defs[e2["name"]], depth + 1)
+                    return v
+                B = ev(x.get(other))
+                key = "cif_is_valid_name:L%s:%s" % (x.get("l"), what)
+                if B is None or op not in ("<", "<="):
+                    rule.unproved(key, "bound not evaluable")
+                    continue
+                limit = B if op == "<=" else B - 1
+                if callee != "u_countChar32":
+                    rule.violation(fn.file, fn.name, x.get("l"), "name-length-in-code-units:%s" % what,
+                                   "the length of a %s is measured with %s (UTF-16 code units) against the line-length limit, which "
+                                   "counts characters: a valid name at the limit that contains a supplementary-plane character is "
+                                   "refused" % (what, callee))
+                elif limit != want:
+                    rule.violation(fn.file, fn.name, x.get("l"), "name-length-limit:%s" % what,
+                                   "the longest %s accepted has %d characters, the limit is %d (CIF_LINE_LENGTH%s)"
+                                   % (what, limit, want, "" if item else " - 5"))
+                else:
+                    rule.ok(key, "at most %d characters, counted in code points" % want)
     return n
 
